@@ -39,6 +39,7 @@ func main() {
 			for _, sz := range []string{"s", "m", "l"} {
 				fmt.Printf("%s %s %d\n", eco, sz, len(versionTemplates(eco, sz)))
 			}
+			fmt.Printf("%s upper-capable range-safe %d\n", eco, len(rangeSafe(eco, upperCapable(append(versionTemplates(eco, "m"), versionTemplates(eco, "l")...)))))
 		}
 	default:
 		fmt.Fprintln(os.Stderr, "unknown command", os.Args[1])
@@ -139,6 +140,8 @@ func cmdCheck(argv []string) int {
 	timeout := fs.Int("timeout", 0, "per-query timeout (ms)")
 	limit := fs.Int("limit", 0, "max configurations")
 	cfgTimeout := fs.Int("cfgtimeout", 0, "per-configuration time budget (s)")
+	cross := fs.String("cross", "default", "second solver re-deciding a sample of the verdicts (cvc5|z3|z3-new|none); default: cvc5 in the thorough tier, none in the quick tier")
+	crossEvery := fs.Int("cross-every", 25, "re-decide every n-th definite verdict with the second solver")
 	fs.Parse(argv[1:])
 	if *tier == "" {
 		*tier = os.Getenv("VERIF_TIER")
@@ -158,7 +161,16 @@ func cmdCheck(argv []string) int {
 			*cfgTimeout = 600
 		}
 	}
-	return runCheck(id, checkOpts{cfgTimeout: *cfgTimeout, tier: *tier, workers: *workers, strict: *strict, solver: *solver, filter: *filter, verbose: *verbose, timeout: *timeout, limit: *limit})
+	if *cross == "default" {
+		*cross = "none"
+		if *tier == "thorough" {
+			*cross = "cvc5"
+		}
+	}
+	if *cross == "none" {
+		*cross = ""
+	}
+	return runCheck(id, checkOpts{cross: *cross, crossEvery: *crossEvery, cfgTimeout: *cfgTimeout, tier: *tier, workers: *workers, strict: *strict, solver: *solver, filter: *filter, verbose: *verbose, timeout: *timeout, limit: *limit})
 }
 
 // cmdTmplCheck reports grammar templates that the current parser rejects for every content.
